@@ -1,7 +1,7 @@
 (* C03 - Address claiming converges to unique addresses and the lower NAME wins.  Statements: Spec/ClaimSpec.v;
    proofs: Proofs/ClaimProofsA.v (generic network), Proofs/ClaimProofsB.v (library).  Not proved: converges_stmt (see Spec/ClaimSpec.v). *)
 From Coq Require Import ZArith List.
-From N2kV Require Import Spec.ClaimSpec Proofs.ClaimProofsA Proofs.ClaimProofsB.
+From N2kV Require Import Model.NodeRxDefs Model.NetDefs Spec.ClaimSpec Proofs.ClaimProofsA Proofs.ClaimProofsB Proofs.ClaimProofsC Proofs.ClaimProofsD Proofs.ClaimProofsE.
 Import ListNotations.
 Local Open Scope Z_scope.
 
@@ -31,9 +31,22 @@ Theorem C03_exhausted_run : exhausted_run_stmt.  Proof. exact exhausted_run. Qed
 Print Assumptions C03_exhausted_run.
 Theorem C03_tx_source_is_reported : tx_source_is_reported_stmt.  Proof. exact tx_source_is_reported. Qed.
 Print Assumptions C03_tx_source_is_reported.
+Theorem C03_address_changed_flag : address_changed_flag_stmt.  Proof. exact address_changed_flag. Qed.
+Print Assumptions C03_address_changed_flag.
 (* D-04: R5 fails for commanded addresses (known finding commanded-address:sibling-collision) *)
 Theorem C03_commanded_collision_refuted : commanded_collision_refuted_stmt.  Proof. exact commanded_collision_refuted. Qed.
 Print Assumptions C03_commanded_collision_refuted.
+(* ... and holds for commands that avoid the siblings *)
+Theorem C03_lib_R5_commanded_partial : lib_R5_commanded_partial_stmt.  Proof. exact lib_R5_commanded_partial. Qed.
+Print Assumptions C03_lib_R5_commanded_partial.
+
+(* the generic theorems instantiated with the library's and the reference node's reactions (claim-level network) *)
+Theorem C03_library_node_hyps : library_node_hyps_stmt.  Proof. exact library_node_hyps. Qed.
+Print Assumptions C03_library_node_hyps.
+Theorem C03_library_quiescent_unique_partial : library_quiescent_unique_partial_stmt.  Proof. exact library_quiescent_unique_partial. Qed.
+Print Assumptions C03_library_quiescent_unique_partial.
+Theorem C03_ref_react_frames : ref_react_frames_stmt.  Proof. exact ref_react_frames. Qed.
+Print Assumptions C03_ref_react_frames.
 
 (* non-vacuity: the hypotheses of the generic theorems are satisfiable and runs to quiescence exist (two nodes contending for 30:
    the lower NAME keeps it, the other ends without address); the premises of lib_R1..R5 are met by a reachable node of the model *)
@@ -46,3 +59,6 @@ Example C03_library_nonvacuous : exists r, claim_args r 30 5 0 /\ lib_src r 0 = 
   foreign_name r 5 /\ foreign_name r 100 /\ lib_src r 1 = 31.
 Proof. exact lib_nonvacuous. Qed.
 Print Assumptions C03_library_nonvacuous.
+Example C03_instance_nonvacuous : config_ok 2 ex_ndev ex_name /\ initial pkind 2 ex_ndev c_addr (c_good ex_ndev ex_name) ex_w0.
+Proof. exact ex_config. Qed.
+Print Assumptions C03_instance_nonvacuous.
